@@ -6,7 +6,11 @@ RULE = ("request sequences built from parts (method, raw path with percent-encod
         "offsets / over-long runs, query strings from the processors' parameter grammars and mutations of them, header lists) against "
         "Server::handle_request with the real processors registered in generated orders (rib, router list, router info, mrt queue, "
         "/status/graph, /status/traces, stubs), every case ending with GET /status; a case is non-trivial when its observation has at "
-        "least three distinct tokens and at least one token that is neither 404 nor 405; distinct = distinct case text")
+        "least three distinct tokens and at least one token that is neither 404 nor 405; distinct = distinct case text. "
+        "Engine c12tcp: connections of raw HTTP/1.x bytes (method tokens, the four request-target forms, raw / non-UTF-8 bytes, lengths around "
+        "hyper's limits, versions, line ends, header syntax, obs-text and control bytes, duplicate and huge headers, Connection / HTTP/1.0 "
+        "keep-alive, Content-Length / Transfer-Encoding, pipelining, split writes, cut requests) over loopback TCP to the HTTP server of a "
+        "running pipeline; non-trivial = at least three distinct tokens and at least one response")
 TRUSTED_BASE = [
     "Coq 8.16.1 kernel (coqc; coqchk in thorough); no native_compute",
     "extraction with ExtrOcamlBasic only; OCaml driver oracle/{conv,eng_c12,oracle}.ml (runs the model under both verdicts of the un-modelled Community::from_str outside a fixed vocabulary)",
@@ -19,12 +23,20 @@ TRUSTED_BASE = [
     "engine c12lock: the schedule of C12_statelock_release_refuted replayed on the real RouterHandler::process_msg / RouterInfoApi / RouterListApi: the "
     "connection task is held inside process_msg by back-pressure from the receiving end of the fixture's gate (StreamFixture::hold_updates); 'blocked' = the "
     "request task has not finished 120 ms after it was spawned",
-    "not modelled: hyper's parser and connection handling (request_ok states what the http crate lets through), response bodies beyond 'gzip decodes' and '4xx has a reason', routecore Community::from_str (argument of the model)",
+    "engine c12tcp (harness/src/engines/c12tcp.rs + e2e.rs pipeline start-up, oracle/eng_c12tcp.ml): a blocking TCP client that writes the case's bytes and reads "
+    "HTTP/1.x responses with its own reader (status line, header syntax, Content-Length / chunked / close-delimited bodies, gzip decodes); Http/WireModel.v re-states "
+    "httparse 1.10 Request::parse, hyper 0.14.32 Server::parse / on_error / read-buffer limit and http 0.2.12 Method / Uri parsing as read from their sources, "
+    "tied by the same differential runs; the driver widens the model's answer where the bytes' arrival decides (a malformed head that is also cut; hyper's own "
+    "error response behind unread pipelined bytes; heads longer than the read buffer); the oracle re-executes itself under a larger stack limit for long byte lists",
+    "not modelled: request bodies (what follows a request that announces one is not judged), HTTP/2 (hyper switches protocol on the client preface), TLS, timeouts, "
+    "response bodies beyond 'gzip decodes' and '4xx has a reason', routecore Community::from_str (argument of the model)",
 ]
 ASSUMPTIONS = [
     "the handler is stateless between requests apart from the set of registered processors, so a panic in one request leaves later ones unaffected (checked on the implementation by the follow-up GET /status of every case)",
     "the RIB is physical with an existing (empty) store, the BMP unit has one router in its initial phase, the MRT unit has no update_path: the status codes of these processors on other states are outside the model",
     "Community::from_str is total on ASCII input (it is an argument of the model; theorems hold for every such function)",
+    "wire level: hyper runs with its default settings (Server::single_listener sets none): read buffer 8192 + 4096 * 100 bytes, 100 header lines, request-target <= 65534 bytes, "
+    "keep-alive on, no half-close, no header read timeout; a connection's bytes that fit one read (<= 8192, one write) are parsed at once",
     "concurrent registration: the owner of a processor drops it only after its register call has stored (the callers keep the Arc they downgrade); "
     "the identity of a registration is the allocation of its processor (a fresh number per call)",
     "state machine lock: process_msg never takes its MessageType::Aborted arm (hypothesis no_abort; no state of the machine yields it - "
@@ -342,7 +354,7 @@ def corpus():
 def known_signature(k, engine, case, model, spec, impl):
     """C12-gzip-substring: the implementation gzips (as the model of the code says it does) although the first
     Accept-Encoding value does not accept gzip under RFC 9110 (q=0, or 'gzip' only as a substring of another token)."""
-    if k.get("id") != "C12-gzip-substring" or engine != "c12":
+    if k.get("id") != "C12-gzip-substring" or engine not in ("c12", "c12tcp"):
         return False
     m, s, i = model.split(), spec.split(), impl.split()
     if not (len(m) == len(s) == len(i)) or m != i:
@@ -354,7 +366,7 @@ def known_signature(k, engine, case, model, spec, impl):
         if not (",gzip" in b and a == b.replace(",gzip", ",-", 1)):
             return False
     # the minimised case must actually carry an Accept-Encoding value containing "gzip"
-    return any("677a6970" in o.lower() for o in case.split(";") if o.startswith("Q "))
+    return any("677a6970" in o.lower() for o in case.split(";") if o.startswith(("Q ", "K ")))
 
 
 ENGINES = [{"name": "c12", "gen": gen, "corpus": corpus, "nontrivial": nontrivial, "classify": classify, "shards": 8}]
@@ -445,7 +457,15 @@ ENGINES.append({"name": "c12lock", "gen": gen_lock, "corpus": lambda: ["I L", "L
                 "classify": lambda case, out: ["requests:%d" % len(case.split())] + (["info"] if "I" in case else []) + (["list"] if "L" in case else [])})
 EXTRAS = [regrace, statelock]
 
-LEVEL_TEXT = ("Concurrency: for all thread sets and all schedules of the step model of Resources::register (mutex, load, build, store, release; owners dropping "
+# ---------------------------------------------------------------- raw bytes over TCP to the HTTP server of a running pipeline
+from props import c12tcp_common  # noqa: E402
+ENGINES.append(c12tcp_common.engine())
+
+LEVEL_TEXT = ("Wire level: for ALL byte strings a client can send on a connection, the model of httparse + hyper's Server::parse + http::Uri delivers only "
+              "requests the dispatch model accepts (request_ok), so every answer on every connection is a classified status of rotonda's handler, hyper's own "
+              "400 / 414 / 431, or a closed connection - never a panic; conversely every origin-form request made of the bytes request_ok allows is delivered "
+              "as exactly that request; GET /status on a new connection answers 200 under every configuration. "
+              "Concurrency: for all thread sets and all schedules of the step model of Resources::register (mutex, load, build, store, release; owners dropping "
               "processors at any moment) the live entries equal a sequential register/drop history, so no request can tell the difference, every returned "
               "registration is present and sub-resources stay first; refutations (lost endpoint -> 404) for the mutex-around-the-store-only and no-mutex variants. "
               "For the BMP state machine mutex: 'the Option is Some whenever the mutex is free' for all schedules of connection task, info requests and list "
@@ -457,7 +477,10 @@ LEVEL_TEXT = ("Concurrency: for all thread sets and all schedules of the step mo
               "witnesses for the five panic sites of the original code and for gzip;q=0; kernel-checked, axiom-free; model tied to "
               "the real Server::handle_request and the real processors by differential execution on every run.")
 DESIGN_REF = "DESIGN.md section 6, C12"
-LEVEL_NOTE = ("Partial: hyper's HTTP parser and connection handling are not modelled (requests enter at Server::handle_request); response "
-              "bodies are only checked for 'gzip decodes' and '4xx carries a reason'; processors are modelled on one fixed unit state each. "
+LEVEL_NOTE = ("Partial: hyper's request parser and per-connection request sequence are modelled as read from the sources of httparse 1.10 / hyper 0.14.32 / "
+              "http 0.2.12 (Http/WireModel.v) and tied to the real server by raw bytes over loopback TCP (engine c12tcp), not verified against those crates; "
+              "request bodies, HTTP/2, TLS and timeouts are outside; where the arrival of the bytes decides (cut malformed heads, heads beyond the read "
+              "buffer, an error response behind unread pipelined bytes) the expectation is an alternation; response "
+              "bodies are only checked for well-formed framing, 'gzip decodes' and '4xx carries a reason'; processors are modelled on one fixed unit state each. "
               "Trusted: Coq kernel, ExtrOcamlBasic extraction + OCaml driver, Rust harness and generators.")
 TECHNIQUE = "Coq proof over an executable dispatch model + model/implementation correspondence (differential execution)"
